@@ -73,6 +73,8 @@ type run struct {
 	inconclusive string
 	closeNow  chan struct{} // closed when the case's close-at(k) point is reached (C12)
 	closeOnce sync.Once
+	classify  func() string // history facts attached to violations that carry no class of their own
+	finalClass func(v *cf.Violation) // last look at each violation when the whole history is known
 }
 
 var R *run
@@ -85,7 +87,11 @@ func (r *run) violate(rule, format string, a ...any) {
 		}
 	}
 	if len(r.viol) < 64 {
-		r.viol = append(r.viol, cf.Violation{Rule: rule, Detail: d})
+		v := cf.Violation{Rule: rule, Detail: d}
+		if r.classify != nil {
+			v.Class = r.classify()
+		}
+		r.viol = append(r.viol, v)
 	}
 	r.k.logf("VIOLATION %s %s", rule, d)
 }
@@ -116,6 +122,11 @@ func (r *run) finish(verdict, note string) {
 			// keep the hang as an extra violation so the rule is visible
 		}
 		res.Verdict = "violation"
+	}
+	if r.finalClass != nil {
+		for i := range r.viol {
+			r.finalClass(&r.viol[i])
+		}
 	}
 	res.Violations = r.viol
 	res.Draws, res.Yields = draws, yields
